@@ -37,7 +37,9 @@ CFG_FIELDS = [
 #            sorted by it (so: any permutation per batch)
 # fault    : [] | [kind, idx, val]   1 drop the row of parameter set idx ; 2 replace its last column
 #            by val ; 3 return it twice
-# setup    : [style, dopt, pstyle, upsert, extra, wo_returning, default_only, d_first]   (ignored by the model)
+# setup    : [style, dopt, pstyle, upsert, extra, wo_returning, default_only, d_first, return_defaults]
+#            (ignored by the model).  return_defaults: the statement uses .return_defaults(sort_by_parameter_order=..)
+#            and `rows` are result.inserted_primary_key_rows, each joined with the d value the table holds for that key
 #
 # observation:  [cfg echo, mask echo, batches, status, rows, inserted]
 #   batch   = [current_batch_size, batchnum, total_batches, rows_sorted, is_downgraded,
@@ -66,7 +68,7 @@ RULE = (
     "parameters outside VALUES (constant and per-row), a VALUES element with three bound parameters, "
     "sort_by_parameter_order off, no RETURNING, RETURNING column order, non-positive page sizes, injected "
     "row loss / duplicate / wrong sentinel (guards); insertmanyvalues_max_parameters is also enforced by "
-    "the database (sqlite3 setlimit). quick: above 8 rows 2 of the 9 style combinations per (n, page) "
+    "the database (sqlite3 setlimit). quick: above 8 rows 2 (above 20 rows 1) of the 9 style combinations per (n, page) "
     "in rotation, paramstyles in rotation; thorough: full product. "
     "non-trivial = more than one batch and a non-identity return permutation"
 )
@@ -82,6 +84,8 @@ TRUSTED = [
     "every run; trusted for PostgreSQL/MariaDB/MSSQL)",
     "SQL text rewriting is observed, not modelled: the harness parses the VALUES groups, numeric "
     "placeholders and counters out of the emitted statement",
+    "not modelled: escaped_bind_names (identity here), schema_translate_map rendering, the setinputsizes "
+    "expansion (mssql+pyodbc), engine events / logging in _exec_insertmany_context",
 ]
 ASSUMPTIONS = [
     "insertmanyvalues_page_size >= 1 (0 raises ZeroDivisionError, negative never completes: proved and shown)",
@@ -435,7 +439,7 @@ def _layout(sname, pstyle, extra, upsert, defonly, want_sentinel=True):
 
 def make_case(rng, style, dopt=0, pstyle=0, sbo=1, returning=1, upsert=0, extra=0, mv=1, defmeta=1,
               defonly=0, page=1000, maxp=32700, n=5, perm="rand", fault=None, wo_ret=0, kind="grid", dupsent=False,
-              dfirst=0):
+              dfirst=0, retdef=0):
     sname = STYLES[style]
     named = int(PSTYLES[pstyle] == "named")
     numeric = int(PSTYLES[pstyle].startswith("numeric"))
@@ -526,7 +530,7 @@ def make_case(rng, style, dopt=0, pstyle=0, sbo=1, returning=1, upsert=0, extra=
         keys = [n - i for i in range(n)]
     else:
         keys = [rng.randint(0, 3 * n + 1) for _ in range(n)]
-    setup = [style, dopt, pstyle, upsert, extra, wo_ret, int(defonly), int(dfirst)]
+    setup = [style, dopt, pstyle, upsert, extra, wo_ret, int(defonly), int(dfirst), int(retdef)]
     # multibind over the (enforced) limit: the database rejects the statement - the concrete database
     # of IMVRun.v has no parameter limit, so these cases are oracle-only
     over = bool(sname == "multibind" and maxp and n >= 2 and len(xnames) + min(page, maxp - (total - per_batch), n) * 3 > maxp)
@@ -545,13 +549,13 @@ def gen_cases(rng, tier):
     combos = [(0, 0), (0, 1), (0, 2), (1, 0), (2, 0), (3, 0), (4, 0), (5, 0), (7, 0)]
     ns = list(range(0, 41))
     # 1. the grid: every n x page x style; paramstyle and permutation rotate (thorough: all paramstyles)
-    #    quick: above 8 rows every (n, page) pair still occurs, with 2 of the 9 styles in rotation
+    #    quick: above 8 rows every (n, page) pair still occurs, with 2 (above 20 rows: 1) of the 9 styles in rotation
     g = 0
     for n in ns:
         for page in pages:
             for ci, (style, dopt) in enumerate(combos):
                 g += 1
-                if tier != "thorough" and n > 8 and (ci + 2 * n + page) % 9 >= 2:
+                if tier != "thorough" and n > 8 and (ci + 2 * n + page) % 9 >= (2 if n <= 20 else 1):
                     continue
                 pss = range(4) if tier == "thorough" else [g % 4]
                 for ps in pss:
@@ -606,6 +610,13 @@ def gen_cases(rng, tier):
             cases.append(make_case(rng, 5, pstyle=ps, extra=2, page=page, n=5, kind="per-row-extra"))
         for page in (1, 2, 1000):
             cases.append(make_case(rng, 6, pstyle=ps, page=page, n=3, kind="omitted-pk"))
+    # 4a. the ORM-style path: return_defaults(sort_by_parameter_order=True) and inserted_primary_key_rows
+    for ps in range(4):
+        #   (only where the key is generated by the server: client-side keys need no RETURNING at all)
+        for style, dopt in ((0, 0), (0, 1), (0, 2), (1, 0), (7, 0)):
+            for page in (2, 1000):
+                cases.append(make_case(rng, style, dopt=dopt, pstyle=ps, page=page, n=5, perm="rev", retdef=1,
+                                       kind="return-defaults"))
     # 4b. a VALUES element with several bound parameters: under the limit (modelled) and over it
     #     (finding C12-clamp-counts-elements: the clamp divides by the number of elements)
     for ps in range(4):
@@ -715,7 +726,7 @@ def _build(setup):
     from sqlalchemy.dialects import sqlite as sqlite_d
     from sqlalchemy.sql.compiler import InsertmanyvaluesSentinelOpts as O
 
-    style, dopt, pstyle, upsert, extra, wo_ret, defonly, dfirst = setup
+    style, dopt, pstyle, upsert, extra, wo_ret, defonly, dfirst, retdef = setup
     sname = STYLES[style]
     ps = PSTYLES[pstyle]
     if ps == "qmark":
@@ -772,7 +783,7 @@ def impl(c):
         impl_setup()
     cfg, mask, sent_pos, rowspec, tuples, keys, fault, setup = c["in"]
     C = dict(zip(CFG_FIELDS, cfg))
-    style, dopt, pstyle, upsert, extra, wo_ret, defonly, dfirst = setup
+    style, dopt, pstyle, upsert, extra, wo_ret, defonly, dfirst, retdef = setup
     sname = STYLES[style]
     n = len(tuples)
     named = PSTYLES[pstyle] == "named"
@@ -815,7 +826,9 @@ def impl(c):
     else:
         pkcols = [t.c.id]
     dcol = (t.c.d + sa.bindparam("off")).label("dx") if extra else t.c.d
-    if C["is_returning"]:
+    if retdef:
+        stmt = stmt.return_defaults(sort_by_parameter_order=bool(C["imv_sbo"]))
+    elif C["is_returning"]:
         rcols = [dcol] + pkcols if dfirst else pkcols + [dcol]
         stmt = stmt.returning(*rcols, sort_by_parameter_order=bool(C["imv_sbo"]))
 
@@ -936,7 +949,11 @@ def impl(c):
 
             try:
                 res = conn.execution_options(insertmanyvalues_page_size=C["page_size"]).execute(stmt, params)
-                if C["is_returning"]:
+                if retdef:
+                    pks = [tuple(r) for r in res.inserted_primary_key_rows]
+                    held = {tuple(r[:-1]): r[-1] for r in conn.execute(sa.select(*pkcols, t.c.d)).all()}
+                    rows_out = [[_canon(v) for v in pk] + [_canon(held.get(pk))] for pk in pks]
+                elif C["is_returning"]:
                     rows_out = [[_canon(v) for v in r] for r in res.all()]
             except ZeroDivisionError:
                 status = 1
